@@ -17,4 +17,22 @@ MC_Bands == {IntItem(v) : v \in BandVals} \cup {IntItem(Flip(v)) : v \in BandVal
 \* (the data filler does not fit capacities 1..5 although its length prefix does: the integer after it
 \* is then written by a caller that carries on after a refused write)
 MC_Fillers == {RawItem(<<>>), RawItem(<<9>>), StrItem(<<97>>), DataItem(<<1, 2, 3, 4, 5>>)}
+(* ---- extension round: uuid items, sanitised strings, reads after an error, demo padding in full ---- *)
+MC_ReadOpsX == MC_ReadOps \cup {Op("strsan", 0), Op("uuid", 0)}
+U1 == <<0, 1, 127, 128, 255, 64, 0, 0, 10, 31, 32, 200, 16, 17, 254, 0>>
+U2 == <<255, 255, 255, 255, 255, 255, 255, 255, 255, 255, 255, 255, 255, 255, 255, 255>>
+MC_UuidItems == {UuidItem(U1), UuidItem(U2), IntItem(-65), RawItem(<<9>>), StrItem(<<97>>)}
+MC_UuidFillers == {RawItem(<<>>), RawItem(<<9>>), IntItem(-65), UuidItem(U2)}
+MC_UuidReadOps == {Op("uuid", 0), Op("raw", 16), Op("raw", 15), Op("int", 0), Op("strsan", 0), Op("rest", 0), Op("finish", 0)}
+(* inputs on which every kind of read fails in each of its ways (and succeeds), so that the free reads
+   behind it run on an unpacker that has just reported an error: int - every byte has the extend flag;
+   str - no NUL; strsan - control character (not an error of the unpacker: the cursor stays behind
+   the NUL); data - length negative / longer than the rest / truncated length; raw, uuid - too short *)
+MC_PoisonDatas == {<<128>>, <<128, 255, 128, 255>>, <<1, 128>>, <<97, 98>>, <<97, 10, 0, 5>>, <<97, 0, 128>>,
+                   <<64>>, <<5, 1, 2>>, <<2, 1, 2, 3>>, <<128, 1, 7>>, <<0, 0, 0, 0>>,
+                   U1 \o <<3>>, SubSeq(U1, 1, 15), <<1>> \o U2 \o <<0, 0, 0>>}
+(* demo padding in full: inputs of length 0, 4, 8 over {00, 07}; raw reads of every length bring the
+   cursor to every position, then finish (0..8 bytes left, zero or not), finish twice, reads behind finish *)
+MC_DemoDatas == {<<>>} \cup [1..4 -> {0, 7}] \cup {<<7, 7, 7>> \o t : t \in [1..5 -> {0, 7}]}
+MC_DemoReadOps == {Op("raw", n) : n \in 0..8} \cup {Op("finish", 0), Op("int", 0), Op("rest", 0)}
 =============================================================================
